@@ -1,6 +1,7 @@
 import SSVerif.Proofs.LogAdd
 import SSVerif.Proofs.LogConv
 import SSVerif.Proofs.LogTablesChecked
+import SSVerif.Proofs.LogTableReal
 /-!
 # C19 — Log-domain addition is accurate, commutative and monotone
 
@@ -18,6 +19,8 @@ Property theorems only.  `lm : LogMath` is the model of a `logmath_t` with a tab
   `B^(2k−1)(1−δ)² ≤ (1 + B^(−d))² ≤ B^(2k+1)(1+δ)²` with `B = P/Q`, `δ = 1/D`, i.e.
   `|k − log_B(1 + B^(−d))| ≤ ½ + log_B(1+δ)`.  For a configuration, `B = base^(2^shift)` is the
   base of the shifted log domain and `δ = 2⁻²⁰` (`log_B(1+δ) < 0.0096` at base 1.0001, shift 0).
+* `C19_logAdd_is_rounded_log_of_sum` restates the accuracy with Mathlib's real logarithm:
+  `|logAdd x y − log_B(B^x + B^y)| ≤ ½ + ε`.
 * The integer side of `logmath_log`/`logmath_exp` is `logPost`/`expArg`; the floating-point
   `log`/`pow` are outside the model.  "Never increases" does **not** hold for the code as it is
   (`(int)` truncates toward zero — defect D20, a known finding); what holds is stated.
@@ -84,6 +87,31 @@ theorem C19_logAdd_spec {c : Config} (h : c.Checked) {x y : Int}
   ⟨logAdd_comm _ (Int.le_of_lt hx) (Int.le_of_lt hy), max_le_logAdd _ (Int.le_of_lt hx) (Int.le_of_lt hy),
    logAdd_le_max_add_t0 h.ok (Int.le_of_lt hx) (Int.le_of_lt hy) ix iy,
    C19_logAdd_accurate h.ok.size_le h.acc hx hy ix iy⟩
+
+/-- **Accuracy, in terms of real logarithms.**  For a checked configuration with base
+`b = baseNum/baseDen` and shift `s`, let `B = b^(2^s)` be the base of the shifted log domain (one
+unit of a shifted log value is `2^s` units of base `b`).  For all log-probabilities above `zero`,
+the value `logmath_add` returns is the logarithm to base `B` of the sum of the two probabilities
+`B^x + B^y`, to within half a unit plus `ε = log_B(2^20/(2^20−1))` (`ε < 0.0096` for base 1.0001 at
+shift 0, smaller for larger `B`). -/
+theorem C19_logAdd_is_rounded_log_of_sum {c : Config} (h : c.Checked) {x y : Int}
+    (hx : c.lm.zero < x) (hy : c.lm.zero < y) (ix : IsInt32 x) (iy : IsInt32 y) :
+    let B : ℝ := ((c.baseNum : ℝ) / c.baseDen) ^ (2 ^ c.shift)
+    |((logAdd c.lm x y : Int) : ℝ) - Real.logb B (B ^ x + B ^ y)| ≤
+      1 / 2 + Real.logb B ((2 ^ 20 : ℝ) / (2 ^ 20 - 1)) := by
+  intro B
+  obtain ⟨k, hk, hacc⟩ := C19_logAdd_accurate h.ok.size_le h.acc hx hy ix iy
+  have hQ : 0 < c.baseDen ^ 2 ^ c.shift := Nat.pow_pos h.den_pos
+  have hPQ : c.baseDen ^ 2 ^ c.shift < c.baseNum ^ 2 ^ c.shift :=
+    Nat.pow_lt_pow_left h.base_gt (Nat.ne_of_gt (Nat.pow_pos (by decide)))
+  have := rounded_log_of_sum hQ hPQ (by decide : 1 < 2 ^ 20) hacc
+  have eB : ((c.baseNum ^ 2 ^ c.shift : ℕ) : ℝ) / ((c.baseDen ^ 2 ^ c.shift : ℕ) : ℝ) = B := by
+    push_cast; rw [← div_pow]
+  rw [eB] at this
+  rw [hk]
+  have e20 : ((2 ^ 20 : ℕ) : ℝ) = (2 ^ 20 : ℝ) := by norm_num
+  rw [e20] at this
+  exact this
 
 /-- **`t[0]` is `log_B 2` rounded**: `B^(2k−1)(1−δ)² ≤ 4 ≤ B^(2k+1)(1+δ)²` for `k = t[0]`
 (so "not larger than the larger argument by more than log 2" up to rounding). -/
